@@ -5,6 +5,16 @@ import "golang.org/x/tools/go/ssa"
 
 func init() {
 	register(&propDef{
+		ID: "C16",
+		Explanation: "pilemerge: in Piler.merge every interval matched by the tree query is collected for replacement, hands its images to the merged interval, extends both ends of the merged interval, and is deleted (in a loop over the collected list) from the queried tree before the merged interval is inserted into that same tree — conservation of member features across merges. pileadd: Piler.Add looks the pair up in both orientations (two look-ups whose 2-element keys hold the same two values in swapped order) before the first change to the trees, merges both features, and records the pair on every successful return.",
+		NotDecided:  "that piles are exactly the connected components, disjointness, order independence, the overlap-slack arithmetic of pileInterval.Overlap/Range, the Piles filter (properties of the interval tree's contents at run time).",
+		Assumptions: []string{"interval.IntTree.DoMatching calls the callback for every overlapping interval; Delete/Insert behave as their names say"},
+		Run: func(c *Ctx) {
+			c.guard("pilemerge", func() { rulePileMerge(c, "pilemerge"); c.floor("pilemerge", 5) })
+			c.guard("pileadd", func() { rulePileAdd(c, "pileadd"); c.floor("pileadd", 4) })
+		},
+	})
+	register(&propDef{
 		ID: "C17",
 		Explanation: "tables/alphabet: for each built-in alphabet the constructor arguments are read as constants (go/types constant values, through Must* wrappers and package-level variables) and checked against every clause the property states about definitions: letters distinct ASCII (up to case for case-insensitive alphabets); pairing strings equal length, ASCII, involutive, case preserving; every letter of the alphabet, in both cases, is paired with a letter of the alphabet; in four-letter alphabets index(complement(l)) == 3-index(l); the gap letter, when part of the alphabet, has index 0. bijection: NewPairing tests pair[pair[x]] == x for the letters of both definition strings. casefold: in the case-insensitive branch of newAlphabet every string ranged over or indexed to fill the tables derives from strings.ToLower/ToUpper of the definition. tablefill: every loop whose counter indexes a fixed-size lookup table (index, pair, ok, complements) covers the whole table.",
 		NotDecided:  "that newAlphabet/NewPairing/NewComplementor build the lookup tables these definitions describe, AllValid positions, constructor rejection of bad definitions (value-level behaviour).",
